@@ -137,6 +137,46 @@ pub fn generate_certs(tag: &str) -> Result<CertDir> {
     Ok(CertDir { client, server })
 }
 
+/// Renewal in place: every file of an existing set is first replaced by a longer one (an older
+/// set with longer encodings), then the generator runs again over the same directories.
+pub fn regenerate_certs_in_place(dirs: &CertDir) -> Result<()> {
+    for d in [&dirs.client, &dirs.server] {
+        for e in std::fs::read_dir(d)? {
+            let p = e?.path();
+            if p.is_file() {
+                let mut old = std::fs::read(&p)?;
+                old.extend(std::iter::repeat(0xA5u8).take(700));
+                std::fs::write(&p, old)?;
+            }
+        }
+    }
+    silenced(|| GenCertsRunner::from(GenCertsArgs { server_out_path: dirs.server.clone(), client_out_path: dirs.client.clone(), no_expiry: true }).run())?;
+    Ok(())
+}
+
+/// PEM encoding of DER certificates (a "full chain" file as a deployment would hand to the server).
+pub fn pem_chain(ders: &[Vec<u8>]) -> String {
+    const T: &[u8; 64] = b"ABCDEFGHIJKLMNOPQRSTUVWXYZabcdefghijklmnopqrstuvwxyz0123456789+/";
+    let mut out = String::new();
+    for der in ders {
+        let mut b64 = String::new();
+        for c in der.chunks(3) {
+            let n = (c[0] as u32) << 16 | (*c.get(1).unwrap_or(&0) as u32) << 8 | *c.get(2).unwrap_or(&0) as u32;
+            b64.push(T[(n >> 18) as usize & 63] as char);
+            b64.push(T[(n >> 12) as usize & 63] as char);
+            b64.push(if c.len() > 1 { T[(n >> 6) as usize & 63] as char } else { '=' });
+            b64.push(if c.len() > 2 { T[n as usize & 63] as char } else { '=' });
+        }
+        out.push_str("-----BEGIN CERTIFICATE-----\n");
+        for line in b64.as_bytes().chunks(64) {
+            out.push_str(std::str::from_utf8(line).unwrap());
+            out.push('\n');
+        }
+        out.push_str("-----END CERTIFICATE-----\n");
+    }
+    out
+}
+
 /// Runs `f` with file descriptors 1 and 2 pointing at /dev/null.
 fn silenced<T>(f: impl FnOnce() -> T) -> T {
     use std::io::Write;
@@ -219,8 +259,13 @@ impl World {
     /// Builds the real server (real `quic::server_config`, real `Server`) on a simulated endpoint
     /// and spawns its real accept loop.
     pub fn start_server_with(&self, certs: &CertDir, opts: ServerOpts) -> Result<()> {
-        let root_store = load_root_store(certs.server.join("ca.der"))?;
-        let (chain, key) = read_certs(certs.server.join("localhost.der"), certs.server.join("localhost.key.der"))?;
+        self.start_server_files(&certs.server.join("ca.der"), &certs.server.join("localhost.der"), &certs.server.join("localhost.key.der"), opts)
+    }
+
+    /// As the server binary does it: CA file, certificate (chain) file, key file.
+    pub fn start_server_files(&self, ca: &Path, cert: &Path, key: &Path, opts: ServerOpts) -> Result<()> {
+        let root_store = load_root_store(ca.to_path_buf())?;
+        let (chain, key) = read_certs(cert.to_path_buf(), key.to_path_buf())?;
         let cfg_opts = ConfigOptions { keylog: false, stateless_retry: false, max_idle_timeout: IdleTimeout::from(VarInt::from_u32(opts.idle_timeout_ms)) };
         let mut config = server_config(root_store, chain, key, cfg_opts)?;
         if opts.send_window.is_some() || opts.stream_receive_window.is_some() {
